@@ -1240,3 +1240,38 @@ fn meta_mutator_cases(eps: &[(String, String)], thorough: bool, f: &mut dyn FnMu
         }
     }
 }
+
+// ---- (i) collectors on infinite / astronomically long iterators: the size hint must not be reserved up
+//          front (a "capacity overflow" panic before a single value is pulled). After the repair such a call
+//          simply never ends (or exhausts memory) — outside the property; the cases run in their own batch with
+//          a short limit and no retry ----------------------------------------------------------------------
+
+const INFINITE_COLLECT: &str = "gen:infinite-collect";
+
+fn infinite_collect_cases(thorough: bool, f: &mut dyn FnMut(Case)) {
+    let sources_quick = ["(1, 2).cycle()", "'ab'.chars().cycle()", "(1,).chain((1, 2).cycle())", "(1, 2).cycle().zip((3, 4).cycle())", "(1, 2).cycle().each(|x| x)",
+        "(0..9223372036854775807).iter()", "(-9223372036854775807).step_to(9223372036854775807)", "iterator.repeat(1, 9223372036854775807)"];
+    let sources_more = ["(1, 2).cycle().enumerate()", "(1, 2).cycle().intersperse(0)", "(1, 2).cycle().skip(1)", "(1, 2).cycle().step(2)", "(1, 2).cycle().keep(|x| true)",
+        "(1, 2).cycle().peekable()", "(1, 2).cycle().windows(2)", "(1, 2).cycle().chunks(2)", "(1, 2).cycle().take(9223372036854775807)", "((1, 2), (3, 4)).cycle().flatten()",
+        "iterator.repeat(1)", "iterator.generate(|| 1)", "(|| loop yield 1)()", "iterator.generate(9223372036854775807, || 1)"];
+    let collectors = [
+        ("iterator.to_tuple", "X.to_tuple()"),
+        ("iterator.to_list", "X.to_list()"),
+        ("iterator.to_map", "X.to_map()"),
+        ("iterator.to_string", "X.to_string()"),
+        ("list.extend", "l = []\nl.extend X\nsize l"),
+        ("map.extend", "m = {}\nm.extend X\nsize m"),
+        ("string.from_bytes", "string.from_bytes X"),
+        ("iterator.cycle", "X.cycle().next()"),
+    ];
+    let mut sources: Vec<&str> = sources_quick.to_vec();
+    if thorough {
+        sources.extend(sources_more);
+    }
+    for src in sources {
+        for (api, body) in collectors {
+            let text = format!("{}\n", body.replace('X', &format!("({})", src)));
+            f(Case { kind: 'R', text, group: "infinite-collect", apis: vec![api.to_string(), INFINITE_COLLECT.to_string()] });
+        }
+    }
+}
